@@ -215,8 +215,8 @@ static void op_delete(int id)
     int r; TASKCALL(r = COTmrDelete(&Node.Tmr, (int16_t)id));
     tr(T_RET, r, 0, 0, 0);
     if (k >= 0) {
-        if (r == 0) { NDelOk++; S->a[k].live = 0; if (elapsed) NElapsedDel++; }
-        else if (InProcess && S->a[k].due <= S->clock) { NSameTick++; /* open: due in the pass in progress, refused, still runs */ }
+        if (r == 0) { NDelOk++; S->a[k].live = 0; if (elapsed) NElapsedDel++; if (InProcess && elapsed) NSameTick++; }
+        else if (InProcess && S->a[k].due <= S->clock) VIOL("delete/in-pass-refused", "delete, from a callback, of live action id %d which is due in the pass in progress returned %d (it has elapsed and is not yet processed)", id, r);
         else VIOL(elapsed ? "delete/elapsed-refused" : "delete/refused", "delete of live action id %d returned %d", id, r);
     } else {
         NDelFail++;
@@ -365,16 +365,17 @@ static void c07rand(unsigned long nseq, int nops)
 /* ------------------------------------------------------------- conversions */
 static void conv(unsigned long n)
 {
-    static const uint32_t F[] = { 1, 2, 3, 7, 10, 50, 99, 100, 101, 250, 300, 333, 999, 1000, 1001, 1024, 2000, 3000, 9999, 10000, 10001, 16000, 32768, 48000, 100000, 1000000, 1234567, 8000000 };
+    static const uint32_t F[] = { 1, 2, 3, 7, 10, 50, 99, 100, 101, 250, 300, 333, 999, 1000, 1001, 1024, 2000, 3000, 9999, 10000, 10001, 16000, 32768, 48000, 100000, 1000000, 1234567, 8000000,
+                                  16000000, 48000000, 65536000, 65537000, 65538001, 72000000, 80000000, 100000000, 168000000, 216000000, 400000000, 1000000000, 4294967295u };
     static const uint32_t Un[] = { CO_TMR_UNIT_1MS, CO_TMR_UNIT_100US };
     S = malloc(sizeof(SYS)); sys_init(4, 1);
     unsigned long cases = 0, exactc = 0;
     for (unsigned long q = 0; q < n + sizeof F / sizeof F[0]; q++) {
-        uint32_t f = q < sizeof F / sizeof F[0] ? F[q] : 1 + rnd() % (rnd() % 2 ? 20000 : 10000000);
+        uint32_t f = q < sizeof F / sizeof F[0] ? F[q] : 1 + rnd() % (rnd() % 3 == 0 ? 20000 : rnd() % 2 ? 10000000 : 4294967295u);
         Node.Tmr.Freq = f;
         for (int u = 0; u < 2; u++) {
             uint32_t unit = Un[u], prev = 0;
-            for (uint32_t t = 0; t <= 65535; t += (q < 40 ? 1 : 1 + rnd() % 97)) {
+            for (uint32_t t = 0; t <= 65535; t += (q < 60 ? 1 : 1 + rnd() % 97)) {
                 uint32_t got = COTmrGetTicks(&Node.Tmr, (uint16_t)t, unit);
                 uint64_t prod = (uint64_t)t * f;
                 cases++;
